@@ -17,3 +17,9 @@ aa = ActualArguments([], None, {}, None, False, set(), None)
 v1, v2 = CallValue(aa), CallValue(aa)
 print("CallValue", v1 == v2, hash(v1) == hash(v2))
 print("dedupe:", unite_values(a, b))
+from pyanalyze.signature import Signature, SigParameter, ParameterKind
+from pyanalyze.value import TypedValue
+a = SigParameter("a", ParameterKind.KEYWORD_ONLY, annotation=TypedValue(int))
+b = SigParameter("b", ParameterKind.KEYWORD_ONLY, annotation=TypedValue(str))
+s1 = Signature.make([a, b], TypedValue(int)); s2 = Signature.make([b, a], TypedValue(int))
+print("Signature kw-only reorder:", s1 == s2, hash(s1) == hash(s2))
